@@ -207,11 +207,10 @@ class BlockParser:
 			演算子は前後に空白を伴って出力される(`a < b`, `a << 2`, `a >= b`)のに対し、テンプレート引数の括弧は識別子に密着する(`std::vector<int>`)
 		"""
 		before = text[index - 1] if index > 0 else ''
-		after = text[index + 1] if index + 1 < len(text) else ''
 		if text[index] == '<':
-			return before in ' <' or after in ' =<'
+			return before == ' ' or (before == '<' and index > 1 and text[index - 2] == ' ')
 		elif text[index] == '>':
-			return before in ' -' or after == '=' or (before == '>' and index > 1 and text[index - 2] == ' ')
+			return before in (' ', '-') or (before == '>' and index > 1 and text[index - 2] == ' ')
 		else:
 			return False
 
